@@ -33,11 +33,11 @@ ASSUMPTIONS = [
 BUDGET = {"quick": {"examples": 12000, "seconds": 60}, "thorough": {"examples": 400000, "seconds": 1500}}
 
 OPS = {"arith", "math", "cond", "index", "tensor", "compound", "pow", "abs", "sign", "math2", "bessel", "shortcut",
-       "eqne", "logic", "pylit", "absfree", "powx", "oddshape"}
-REAL = Profile(ops=OPS, leaves={"coef", "const", "lit", "zero", "eye", "x"}, max_rank=3, elements="all", manifolds=True)
+       "eqne", "logic", "pylit", "absfree", "powx", "oddshape", "elem"}
+REAL = Profile(ops=OPS, leaves={"coef", "const", "lit", "zero", "eye", "x", "perm"}, max_rank=3, elements="all", manifolds=True)
 CPLX = Profile(ops=(OPS - {"sign", "cond", "bessel", "math2", "logic", "eqne"}) | {"complexops"}, cplx=True,
                leaves={"coef", "const", "lit", "zero", "eye"}, max_rank=3, elements="lagrange", manifolds=False)
-INTERIOR = Profile(ops=OPS | {"restr"}, leaves={"coef", "const", "lit", "zero", "eye", "x", "n"}, max_rank=2,
+INTERIOR = Profile(ops=OPS | {"restr", "jumpavg"}, leaves={"coef", "const", "lit", "zero", "eye", "x", "n"}, max_rank=2,
                    elements="all", interior=True, facet=True)
 
 
